@@ -45,6 +45,42 @@ def error_arm(stmts):
     return False
 
 
+# active member of the attribute value union per kind (include/clstepcore/STEPattribute.h)
+UNION_MEMBER = {"sdaiINTEGER": {"i"}, "sdaiREAL": {"r"}, "sdaiNUMBER": {"r"}, "sdaiSTRING": {"S"}, "sdaiBINARY": {"b"},
+                "sdaiENUMERATION": {"e"}, "sdaiBOOLEAN": {"e"}, "sdaiLOGICAL": {"e"}, "sdaiSELECT": {"sh"}, "sdaiINSTANCE": {"c"},
+                "sdaiAGGR": {"a"}, "ARRAY_TYPE": {"a"}, "BAG_TYPE": {"a"}, "SET_TYPE": {"a"}, "LIST_TYPE": {"a"}}
+
+
+def arm_members(f, pt):
+    """-> {kind value or 'default': set of ptr.<member> names used in that arm}"""
+    best = None
+    for n in f.walk():
+        if n["k"] == "Switch" and "PrimitiveType" in f.ty(strip(n["ch"][0])):
+            items = flatten_switch(n)
+            if best is None or len(items) > len(best):
+                best = items
+    if best is None:
+        return None
+    out = {}
+    for i, (labs, stmt) in enumerate(best):
+        body = []
+        for labs2, st in best[i:]:
+            body.append(st)
+            if st is not None and any(x["k"] in ("Break", "Return") for x in walk(st)):
+                break
+        mem = set()
+        for st in body:
+            for x in walk(st) if st is not None else []:
+                if x["k"] == "Member" and x.get("ch"):
+                    b = strip(x["ch"][0])
+                    if b is not None and b["k"] == "Member" and b["n"] == "ptr":
+                        # distinguish this->ptr from sa->ptr: only the member name matters for the active-member rule
+                        mem.add(x["n"])
+        for l in labs:
+            out[l] = mem
+    return out
+
+
 def arms_of(f, pt):
     """-> {kind value: 'handled'|'error'} for the widest switch over PrimitiveType in f"""
     best = None
@@ -106,6 +142,29 @@ def r1_dispatch(prog, res):
                         "%s handles %s" % (name.split("::")[-1], kn) if ok else
                         "%s has no (non-error) arm for %s although STEPread accepts attributes of that kind" % (name + variant, kn))
     res.floor("R1.sibling_dispatch", "kind x sibling cells", n, 60)
+    # active union member per arm
+    m = 0
+    for name in SIBLINGS:
+        for f in prog.by_name.get(name, []):
+            am = arm_members(f, pt)
+            if not am or len(am) < 6:
+                continue
+            variant = f.key[len(name):][:40]
+            for v in accepted:
+                kn = names.get(v, str(v))
+                allowed = UNION_MEMBER.get(kn)
+                if allowed is None:
+                    continue
+                used = am.get(v, am.get("default", set()))
+                if not used:
+                    continue
+                m += 1
+                ok = used <= allowed
+                res.add("R1.active_union_member", "R1u|%s|%s%s|%s" % (f.relfile(), name, variant, kn), f.where(), ok,
+                        "arm for %s touches ptr.%s" % (kn, "/".join(sorted(used))) if ok else
+                        "%s: the arm that handles %s touches ptr.%s, but the active member for that kind is ptr.%s" %
+                        (name + variant, kn, "/".join(sorted(used - allowed)), "/".join(sorted(allowed))))
+    res.floor("R1.active_union_member", "kind x sibling cells using the value union", m, 40)
 
 
 def summarize_outparam(prog, f, pidx, depth=0, memo=None):
